@@ -2,6 +2,11 @@
 // statement (mutex Lock/Unlock, channel send/receive/select, WaitGroup Add/Done/Wait, go statement, context cancel,
 // handler callback) it inserts `vsched.Point("<file>:<line>:<kind>")`. The copies are substituted by `go build
 // -overlay`; /repo is never modified. With an empty plan a point is an atomic load and a map-free fast path.
+//
+// Goroutine starts are synchronisation points too (kind "gostart"): a point is inserted as the FIRST statement of every
+// goroutine body, before anything the new goroutine does: for `go func() {...}()` at the top of the function literal
+// (id = line of the go statement), for `go x.m(...)` / `go f(...)` whose callee is declared in the same file at the top
+// of that function (id = line of the declaration).  Holding it models a goroutine that was created but is scheduled late.
 package main
 
 import (
@@ -154,11 +159,12 @@ func callKind(fset *token.FileSet, e ast.Expr) string {
 
 func instrument(fset *token.FileSet, f *ast.File, rel string) []point {
 	var pts []point
-	base := filepath.Base(rel)
+	// two instrumented files share the name provider.go: the id carries the package directory as well, so that a hold
+	// names exactly one place
+	base := filepath.Base(filepath.Dir(rel)) + "/" + filepath.Base(rel)
 	var curFunc string
 	var rewrite func(list []ast.Stmt) []ast.Stmt
-	mk := func(s ast.Stmt, kind string) ast.Stmt {
-		line := fset.Position(s.Pos()).Line
+	mkAt := func(line int, kind string) ast.Stmt {
 		id := fmt.Sprintf("%s:%d:%s", base, line, kind)
 		pts = append(pts, point{ID: id, File: rel, Line: line, Kind: kind, Func: curFunc})
 		return &ast.ExprStmt{X: &ast.CallExpr{
@@ -166,6 +172,20 @@ func instrument(fset *token.FileSet, f *ast.File, rel string) []point {
 			Args: []ast.Expr{&ast.BasicLit{Kind: token.STRING, Value: fmt.Sprintf("%q", id)}},
 		}}
 	}
+	mk := func(s ast.Stmt, kind string) ast.Stmt { return mkAt(fset.Position(s.Pos()).Line, kind) }
+	// names of functions / methods of this file that are started as goroutines (`go f(..)`, `go x.m(..)`)
+	goCallees := map[string]bool{}
+	ast.Inspect(f, func(n ast.Node) bool {
+		if g, ok := n.(*ast.GoStmt); ok {
+			switch fn := g.Call.Fun.(type) {
+			case *ast.Ident:
+				goCallees[fn.Name] = true
+			case *ast.SelectorExpr:
+				goCallees[fn.Sel.Name] = true
+			}
+		}
+		return true
+	})
 	var walkStmt func(s ast.Stmt)
 	rewrite = func(list []ast.Stmt) []ast.Stmt {
 		out := make([]ast.Stmt, 0, len(list)*2)
@@ -219,6 +239,10 @@ func instrument(fset *token.FileSet, f *ast.File, rel string) []point {
 			walkStmt(t.Stmt)
 		case *ast.GoStmt:
 			walkExprFuncLits(t.Call)
+			if fl, ok := t.Call.Fun.(*ast.FuncLit); ok {
+				// first statement of the goroutine body, before anything the new goroutine does
+				fl.Body.List = append([]ast.Stmt{mkAt(fset.Position(t.Pos()).Line, "gostart")}, fl.Body.List...)
+			}
 		case *ast.DeferStmt:
 			walkExprFuncLits(t.Call)
 		case *ast.ExprStmt:
@@ -240,6 +264,10 @@ func instrument(fset *token.FileSet, f *ast.File, rel string) []point {
 		}
 		curFunc = fd.Name.Name
 		fd.Body.List = rewrite(fd.Body.List)
+		if goCallees[fd.Name.Name] {
+			// the function is started with a go statement in this file: its first statement is a goroutine start
+			fd.Body.List = append([]ast.Stmt{mkAt(fset.Position(fd.Pos()).Line, "gostart")}, fd.Body.List...)
+		}
 	}
 	return pts
 }
